@@ -134,6 +134,9 @@ def rules(ctx):
     ctx.rule('R13.4', "every dereference / ordering use of the optional `best` is dominated "
                       "by a None test", floor=2)
     ctx.rule('R13.5', "derived collections are constructed as AnnealResults", floor=10)
+    ctx.rule('R13.7', "no raw list mutation and no store to `.best` outside the checked mutators "
+                      "(unbound list.<op>(obj, ...), super().<op> outside the override of <op>, "
+                      "`<other>.best = ...`)", floor=1)
     ctx.rule('R13.6', "AnnealResult conversions keep value/flag/converter pairing; __lt__/__le__ "
                       "compare .value", floor=6)
     ci = P.cls(CLS)
@@ -379,9 +382,41 @@ def rules(ctx):
         for r in rets:
             ts = ctx.res.infer(r.value, fn, CLS) if r.value is not None else set()
             ok = ts == {CLS}
-            ctx.inst('R13.5', fn, r, ok,
-                     "returns a freshly constructed AnnealResults" if ok else
-                     "return value is not constructed as AnnealResults (inferred %s)" % sorted(ts))
+            msg = "returns a freshly constructed AnnealResults"
+            # the returned object must come straight from the constructor (which
+            # computes best element-wise) or from another derived-collection
+            # method - not from a local that was filled by other means
+            v = r.value
+            direct = isinstance(v, ast.Call) and (
+                is_name(v.func, CLS) or
+                (isinstance(v.func, ast.Attribute) and is_name(v.func.value, _self(fn))
+                 and v.func.attr in DERIVED))
+            if ok and not direct:
+                ok, msg = False, ("returned collection is not the direct result of the AnnealResults "
+                                  "constructor or of another derived-collection method")
+            elif not ok:
+                msg = "return value is not constructed as AnnealResults (inferred %s)" % sorted(ts)
+            ctx.inst('R13.5', fn, r, ok, msg)
+        if name in ('to_boolean', 'to_spin'):
+            # every path converts every element with the same-named element method
+            for r in rets:
+                v = r.value
+                good = False
+                if isinstance(v, ast.Call) and is_name(v.func, CLS) and len(v.args) == 1:
+                    a = v.args[0]
+                    if isinstance(a, (ast.GeneratorExp, ast.ListComp)) and len(a.generators) == 1 \
+                            and not a.generators[0].ifs and is_name(a.generators[0].iter, _self(fn)) \
+                            and isinstance(a.elt, ast.Call) and isinstance(a.elt.func, ast.Attribute) \
+                            and a.elt.func.attr == name and src(a.elt.func.value) == src(a.generators[0].target):
+                        good = True
+                elif isinstance(v, ast.Call) and isinstance(v.func, ast.Attribute) \
+                        and v.func.attr == 'apply_function' and v.args and isinstance(v.args[0], ast.Lambda) \
+                        and isinstance(v.args[0].body, ast.Call) and call_name(v.args[0].body) == name:
+                    good = True
+                ctx.inst('R13.6', fn, r, good,
+                         "every element converted with %s on this path" % name if good else
+                         "%s returns a collection whose elements are not all converted with "
+                         "AnnealResult.%s" % (name, name))
     gi = ci.methods.get('__getitem__')
     if gi is not None:
         g = cfg_of(gi.node)
@@ -396,6 +431,43 @@ def rules(ctx):
         ctx.inst('R13.5', gi, 'slice branch', ok,
                  "slice result wrapped in AnnealResults" if ok else
                  "slicing returns a plain list (no AnnealResults construction under isinstance(index, slice))")
+
+    # ---------------------------------------------------------------- R13.7
+    mod = ci.module
+    n_sites = 0
+    for fn in P.all_funcs():
+        if fn.module is not mod:
+            continue
+        selfn = _self(fn) if (fn.cls is ci and fn.node.args.args) else None
+        for n in walk_no_nested(strip_docstring(fn.node.body)):
+            if isinstance(n, ast.Call) and isinstance(n.func, ast.Attribute):
+                f = n.func
+                # unbound raw list op
+                if is_name(f.value, 'list') and f.attr in (set(MUTATORS) | {'__init__', '__imul__'}):
+                    n_sites += 1
+                    ctx.inst('R13.7', fn, n, False,
+                             "raw list.%s bypasses the best-maintaining override" % f.attr)
+                if isinstance(f.value, ast.Call) and is_name(f.value.func, 'super') and fn.cls is ci \
+                        and f.attr in MUTATORS:
+                    n_sites += 1
+                    ok = f.attr == fn.name
+                    ctx.inst('R13.7', fn, n, ok,
+                             "raw super().%s inside its own override" % f.attr if ok else
+                             "raw super().%s used inside %s bypasses the override that maintains best"
+                             % (f.attr, fn.name))
+            if isinstance(n, (ast.Assign, ast.AugAssign)):
+                tg = n.targets if isinstance(n, ast.Assign) else [n.target]
+                for t in tg:
+                    for e in ([t] if not isinstance(t, (ast.Tuple, ast.List)) else t.elts):
+                        if isinstance(e, ast.Attribute) and e.attr == 'best':
+                            n_sites += 1
+                            ok = selfn is not None and is_name(e.value, selfn) and (
+                                fn.name in MUTATORS or fn.name == '__init__')
+                            ctx.inst('R13.7', fn, n, ok,
+                                     "best stored by a checked mutator on self" if ok else
+                                     "`%s` is stored outside the checked mutators of self; the cached "
+                                     "minimum of that object is no longer derived from its elements"
+                                     % src(e))
 
     # ---------------------------------------------------------------- R13.6
     ar = P.cls('AnnealResult')
